@@ -31,6 +31,7 @@ type fragGen struct {
 	strs     []string
 	bools    []string
 	arrs     []string
+	maps     []string // {}num variables with the keys a and b
 	ctrs     []string // while counters (pre-declared)
 	lvs      []string // loop variables in scope (read only), with their type
 	lvTyp    map[string]string
@@ -69,7 +70,7 @@ func (g *fragGen) idx(n int) string {
 }
 
 func (g *fragGen) num(d int) string {
-	k := g.rng.Intn(12)
+	k := g.rng.Intn(13)
 	if d <= 0 {
 		k = g.rng.Intn(4)
 	}
@@ -94,10 +95,52 @@ func (g *fragGen) num(d int) string {
 		return "(" + g.num(d-1) + " " + g.pick([]string{"/", "%"}) + " " + strconv.Itoa(1+g.rng.Intn(4)) + ")"
 	case k < 10:
 		return "(-" + g.pick(g.nums) + ")"
-	default:
+	case k < 11:
 		// arrays are kept at 3 elements by the generator
+		switch g.rng.Intn(6) {
+		case 0: // concatenation: 4 elements
+			return "(" + g.pick(g.arrs) + " + [" + g.numLit() + "])[" + g.idx(4) + "]"
+		case 1: // a slice: 2 elements
+			return g.pick(g.arrs) + g.pick([]string{"[1:]", "[:2]", "[-2:]", "[1:3]"}) + "[" + g.idx(2) + "]"
+		case 2: // repetition: 4 elements
+			return "([" + g.numLit() + " " + g.numLit() + "] * " + g.repCount("2") + ")[" + g.idx(4) + "]"
+		}
 		return g.pick(g.arrs) + "[" + g.idx(3) + "]"
+	default:
+		// maps are kept at the keys a and b by the generator
+		if g.rng.Intn(5) == 0 {
+			return g.mapLit() + "[" + g.key() + "]"
+		}
+		return g.pick(g.maps) + "[" + g.key() + "]"
 	}
+}
+
+func (g *fragGen) repCount(n string) string {
+	if g.errs && g.rng.Intn(8) == 0 {
+		return g.pick([]string{"-1", "1.5"}) // ErrBadRepetition
+	}
+	return n
+}
+
+func (g *fragGen) key() string {
+	if g.errs && g.rng.Intn(10) == 0 {
+		return `"zz"` // no such key
+	}
+	return g.pick([]string{`"a"`, `"b"`})
+}
+
+func (g *fragGen) mapLit() string {
+	if g.rng.Intn(2) == 0 {
+		return "{b:" + g.num(1) + " a:" + g.num(0) + "}"
+	}
+	return "{a:" + g.num(1) + " b:" + g.num(0) + "}"
+}
+
+func (g *fragGen) mapv() string {
+	if g.rng.Intn(3) == 0 {
+		return g.pick(g.maps)
+	}
+	return g.mapLit()
 }
 
 func (g *fragGen) strLit() string {
@@ -105,7 +148,7 @@ func (g *fragGen) strLit() string {
 }
 
 func (g *fragGen) str(d int) string {
-	k := g.rng.Intn(8)
+	k := g.rng.Intn(9)
 	if d <= 0 {
 		k = g.rng.Intn(4)
 	}
@@ -125,14 +168,19 @@ func (g *fragGen) str(d int) string {
 		return g.pick(g.strs)
 	case k < 7:
 		return "(" + g.str(d-1) + " + " + g.str(d-1) + ")"
-	default:
+	case k < 8:
 		// index into a literal of known length (strings grow, their length is not tracked)
 		return `"héllo"[` + g.idx(5) + "]"
+	default:
+		if g.errs && g.rng.Intn(6) == 0 {
+			return `"héllo"` + g.pick([]string{"[3:1]", "[2:9]", "[-7:]"}) // ErrSlice / ErrBounds
+		}
+		return `"héllo"` + g.pick([]string{"[1:3]", "[:2]", "[2:]", "[-3:-1]", "[4:4]", "[:]"})
 	}
 }
 
 func (g *fragGen) boolean(d int) string {
-	k := g.rng.Intn(9)
+	k := g.rng.Intn(10)
 	if d <= 0 {
 		k = g.rng.Intn(3)
 	}
@@ -147,20 +195,37 @@ func (g *fragGen) boolean(d int) string {
 		return "(" + g.str(d-1) + " " + g.pick([]string{"<", "==", "!=", ">="}) + " " + g.str(d-1) + ")"
 	case k < 8:
 		return "(" + g.boolean(d-1) + " " + g.pick([]string{"==", "!="}) + " " + g.boolean(d-1) + ")"
+	case k < 9: // structural equality
+		if g.rng.Intn(2) == 0 {
+			return "(" + g.mapv() + " " + g.pick([]string{"==", "!="}) + " " + g.mapv() + ")"
+		}
+		return "(" + g.arr() + " " + g.pick([]string{"==", "!="}) + " " + g.arr() + ")"
 	default:
 		return "(!" + g.boolean(d-1) + ")"
 	}
 }
 
 func (g *fragGen) arr() string {
-	if g.rng.Intn(3) == 0 {
+	switch g.rng.Intn(9) {
+	case 0, 1, 2:
 		return g.pick(g.arrs)
+	case 3: // 1 + 2 elements
+		return "(" + g.pick(g.arrs) + "[:1] + " + g.pick(g.arrs) + "[1:])"
+	case 4: // 3 × 1 element
+		return "([" + g.num(1) + "] * " + g.repCount("3") + ")"
+	case 5: // 2 + 1 elements
+		if g.errs && g.rng.Intn(6) == 0 {
+			return "(" + g.pick(g.arrs) + "[2:1] + [0])" // ErrSlice
+		}
+		return "(" + g.pick(g.arrs) + "[1:] + [" + g.num(0) + "])"
 	}
 	return "[" + g.num(1) + " " + g.num(1) + " " + g.num(0) + "]"
 }
 
 func (g *fragGen) assign(ind int) {
-	switch g.rng.Intn(8) {
+	switch g.rng.Intn(9) {
+	case 8:
+		g.line(ind, g.pick(g.maps)+" = "+g.mapv())
 	case 0, 1, 2:
 		g.line(ind, g.pick(g.nums)+" = "+g.num(2))
 	case 3, 4:
@@ -192,13 +257,13 @@ func (g *fragGen) rangeHdr() string {
 
 func (g *fragGen) block(ind, depth int, inLoop, top bool) {
 	// a block is a scope: what it declares is gone at its end
-	ln, ls, lb, la, cd := len(g.nums), len(g.strs), len(g.bools), len(g.arrs), g.curDecl
+	ln, ls, lb, la, lm, cd := len(g.nums), len(g.strs), len(g.bools), len(g.arrs), len(g.maps), g.curDecl
 	g.curDecl = map[string]bool{}
 	n := 1 + g.rng.Intn(3)
 	for i := 0; i < n; i++ {
 		g.stmt(ind, depth, inLoop, top)
 	}
-	g.nums, g.strs, g.bools, g.arrs, g.curDecl = g.nums[:ln], g.strs[:ls], g.bools[:lb], g.arrs[:la], cd
+	g.nums, g.strs, g.bools, g.arrs, g.maps, g.curDecl = g.nums[:ln], g.strs[:ls], g.bools[:lb], g.arrs[:la], g.maps[:lm], cd
 }
 
 // declName: a fresh name, or (inside a block, sometimes) the name of a visible
@@ -261,11 +326,13 @@ func (g *fragGen) stmt(ind, depth int, inLoop, top bool) {
 		g.block(ind+1, depth+1, true, false)
 		g.line(ind, "end")
 	case k < 16: // for range without loop variable
-		switch g.rng.Intn(4) {
+		switch g.rng.Intn(5) {
 		case 0:
 			g.line(ind, "for range "+g.arr())
 		case 1:
 			g.line(ind, "for range "+g.str(1))
+		case 4:
+			g.line(ind, "for range "+g.mapv())
 		default:
 			g.line(ind, "for range "+g.rangeHdr())
 		}
@@ -281,7 +348,15 @@ func (g *fragGen) stmt(ind, depth int, inLoop, top bool) {
 		switch g.rng.Intn(4) {
 		case 0:
 			// the parser rejects variables that are never read: a block-local one is read right away
-			switch g.rng.Intn(4) {
+			switch g.rng.Intn(5) {
+			case 4:
+				e := g.mapv()
+				v := g.declName(g.maps)
+				g.line(ind, v+" := "+e)
+				g.maps = append(g.maps, v)
+				if !top {
+					g.line(ind, "n1 = n1 + "+v+`["a"]`)
+				}
 			case 0:
 				e := g.num(2)
 				v := g.declName(g.nums)
@@ -328,7 +403,10 @@ func (g *fragGen) stmt(ind, depth int, inLoop, top bool) {
 		default:
 			g.nid++
 			lv := fmt.Sprintf("e%d", g.nid)
-			if g.rng.Intn(2) == 0 {
+			if r := g.rng.Intn(5); r == 4 {
+				g.line(ind, "for "+lv+" := range "+g.mapv())
+				g.lvTyp[lv] = "string"
+			} else if r < 2 {
 				g.line(ind, "for "+lv+" := range "+g.arr())
 				g.lvTyp[lv] = "num"
 			} else {
@@ -358,14 +436,15 @@ func genFragProgram(rng *rand.Rand, errs, locals bool) string {
 	g.line(0, `s1 := ""`)
 	g.line(0, "b0 := true")
 	g.line(0, "a0 := [1 2 3]")
-	g.nums, g.strs, g.bools, g.arrs = []string{"n0", "n1"}, []string{"s0", "s1"}, []string{"b0"}, []string{"a0"}
+	g.line(0, "m0 := {a:1 b:2}")
+	g.nums, g.strs, g.bools, g.arrs, g.maps = []string{"n0", "n1"}, []string{"s0", "s1"}, []string{"b0"}, []string{"a0"}, []string{"m0"}
 	for i := 0; i < 4; i++ {
 		c := fmt.Sprintf("w%d", i)
 		g.line(0, c+" := 0")
 		g.ctrs = append(g.ctrs, c)
 	}
 	// the parser rejects variables that are never read
-	g.line(0, "n0 = n0 + n1 + w0 + w1 + w2 + w3 + a0[0]")
+	g.line(0, `n0 = n0 + n1 + w0 + w1 + w2 + w3 + a0[0] + m0["a"]`)
 	g.line(0, "s0 = s0 + s1")
 	g.line(0, "b0 = b0 == b0")
 	n := 3 + rng.Intn(6)
@@ -383,6 +462,9 @@ func genFragProgram(rng *rand.Rand, errs, locals bool) string {
 	}
 	for _, v := range g.arrs[1:] {
 		g.line(0, "n1 = n1 + "+v+"[0]")
+	}
+	for _, v := range g.maps[1:] {
+		g.line(0, "n1 = n1 + "+v+`["a"]`)
 	}
 	return g.b.String()
 }
@@ -472,6 +554,9 @@ func c16SemTie(stream, src string, r *Result, execModel, semModel *Model) {
 	if err != nil {
 		if err == ErrModelTimeout {
 			r.Dist(stream + ":model-timeout")
+			if r.Distribution[stream+":model-timeout"] <= 2 {
+				r.Note("%s: the extracted semantics did not answer within 20 s (skipped): %q", stream, src)
+			}
 			return
 		}
 		r.Violate(Violation{Kind: "correspondence", Key: stream + ":model-crash", Detail: err.Error(), Input: in})
@@ -553,6 +638,114 @@ func c16SemTie(stream, src string, r *Result, execModel, semModel *Model) {
 			return
 		}
 		r.Dist(stream + ":semmodel-compared")
+	}
+	r.Validated++
+}
+
+// ---------- the side conditions of the whole-program theorems ----------
+
+// hasElementStore: an assignment whose target is an index expression, anywhere
+func hasElementStore(n parser.Node) bool {
+	found := false
+	var blk func(b *parser.BlockStatement)
+	var st func(n parser.Node)
+	blk = func(b *parser.BlockStatement) {
+		if b == nil {
+			return
+		}
+		for _, x := range b.Statements {
+			st(x)
+		}
+	}
+	st = func(n parser.Node) {
+		switch x := n.(type) {
+		case *parser.Program:
+			for _, y := range x.Statements {
+				st(y)
+			}
+		case *parser.AssignmentStmt:
+			if _, ok := x.Target.(*parser.IndexExpression); ok {
+				found = true
+			}
+		case *parser.IfStmt:
+			if x.IfBlock != nil {
+				blk(x.IfBlock.Block)
+			}
+			for _, e := range x.ElseIfBlocks {
+				blk(e.Block)
+			}
+			blk(x.Else)
+		case *parser.WhileStmt:
+			blk(x.Block)
+		case *parser.ForStmt:
+			blk(x.Block)
+		case *parser.BlockStatement:
+			blk(x)
+		}
+	}
+	st(n)
+	return found
+}
+
+// c16Shape: C17_compile_wf_all / C16_compile_correct_plain_partial are stated under
+// wplain_slist (no key-twice map literal, no bare block) and nb_slist (no break
+// outside a loop), called guaranteed by the parser: checked here on the AST of
+// every program the real parser accepts.  And for a program the real compiler
+// accepts: no element store (read off the Go AST) must mean plain, and plain
+// must mean lfrag (compile_covered on the exported AST).
+func c16Shape(src string, r *Result, em *Model) {
+	in := map[string]any{"program": src, "stream": "shape"}
+	c := c17Compile(src)
+	if c.ParseErr != "" || c.prog == nil {
+		r.Dist("shape:parse-error")
+		return
+	}
+	ans, err := em.AskT("(shape "+astProgram(c.prog)+")", 20*time.Second)
+	if err != nil {
+		if err == ErrModelTimeout {
+			r.Dist("shape:model-timeout")
+			return
+		}
+		r.Violate(Violation{Kind: "correspondence", Key: "shape:model-crash", Detail: err.Error(), Input: in})
+		return
+	}
+	x, err := ParseSX(ans)
+	if err != nil || x.Kind != "lst" || len(x.L) != 5 {
+		r.Violate(Violation{Kind: "correspondence", Key: "shape:model-output", Detail: ans, Input: in})
+		return
+	}
+	wplain, nb, plain, lfrag := x.L[1].S == "t", x.L[2].S == "t", x.L[3].S == "t", x.L[4].S == "t"
+	r.Count(src, true)
+	if !wplain {
+		r.Violate(Violation{Kind: "correspondence", Key: "shape:parsed-program-not-wplain",
+			Detail: "the parser accepted a program whose AST is not wplain_slist (a map literal with len(Pairs) <> len(Order), or a block as a statement)", Input: in, Model: ans})
+		return
+	}
+	if !nb {
+		r.Violate(Violation{Kind: "correspondence", Key: "shape:parsed-program-break-outside-loop",
+			Detail: "the parser accepted a program with a break outside a loop (nb_slist false)", Input: in, Model: ans})
+		return
+	}
+	if c.CompileErr != "" {
+		r.Dist("shape:parsed/compile-error")
+		r.Validated++
+		return
+	}
+	store := hasElementStore(c.prog)
+	if plain == store {
+		r.Violate(Violation{Kind: "correspondence", Key: "shape:plain-vs-element-store",
+			Detail: fmt.Sprintf("plain_slist = %v but the Go AST has an element store: %v", plain, store), Input: in, Model: ans})
+		return
+	}
+	if plain && !lfrag {
+		r.Violate(Violation{Kind: "correspondence", Key: "shape:accepted-plain-not-in-fragment",
+			Detail: "the real compiler accepts the program, it is plain, and lfrag_slist is false (contradicts compile_covered on the exported AST)", Input: in, Model: ans})
+		return
+	}
+	if plain {
+		r.Dist("shape:compiled/plain")
+	} else {
+		r.Dist("shape:compiled/element-store")
 	}
 	r.Validated++
 }
